@@ -25,15 +25,17 @@ fn describe(dump: &Value, e: &Value) -> Value {
     let e = unwrap(dump, e);
     match e["kind"].as_str().unwrap_or("") {
         "enum" => json!({"kind": "enum", "tag": e["tag"], "n": e["variants"].as_array().map(|v| v.len()),
-                         "simple": e["variants"].as_array().map(|v| v.iter().all(|x| x["details"] == "simple"))}),
+                         "simple": e["variants"].as_array().map(|v| v.iter().all(|x| x["details"] == "simple")),
+                         "variants": e["variants"].as_array().map(|v| v.iter().map(|x| x["raw_name"].clone()).collect::<Vec<_>>())}),
         "newtype" => {
             let c = &e["constraints"];
             let what = if c.get("string").is_some() { "string" } else if c.get("enum").is_some() { "enum" } else if c.get("deny").is_some() { "deny" } else { "none" };
-            json!({"kind": "newtype", "constraints": what})
+            let inner = e["type_id"].as_u64().and_then(|i| dump["entries"].get(i.to_string()));
+            json!({"kind": "newtype", "constraints": what, "values": c.get("enum").cloned(), "over": inner.map(|i| i["kind"].clone())})
         }
         "option" => {
             let inner = e["id"].as_u64().and_then(|i| dump["entries"].get(i.to_string()));
-            json!({"kind": "option", "inner": inner.map(|i| unwrap(dump, i)["kind"].clone())})
+            json!({"kind": "option", "inner": inner.map(|i| unwrap(dump, i)["kind"].clone()), "inner_desc": inner.map(|i| describe(dump, i))})
         }
         "vec" | "set" | "array" => {
             let inner = e["id"].as_u64().and_then(|i| dump["entries"].get(i.to_string()));
